@@ -958,3 +958,59 @@ func init() {
 		return Tuple{Ptr{B: &Backing{E: []Value{sb}}}, Iface{}}
 	}
 }
+
+// ---- SecretKeyManager as an ideal keyed function ---------------------------------------------
+//
+// AES-GCM / HMAC-SHA256 mathematics is outside the claim. Encrypt/Decrypt are an
+// invertible pair, ComputeResponse(k, c) is an injective function of (k, c); the real
+// VerifyResponse body runs on top of them. hmac.Equal is byte equality.
+
+func init() {
+	const mgr = "(*tunnox-core/internal/security.SecretKeyManager)."
+	intercepts[mgr+"Encrypt"] = func(e *Engine, fr *frame, a []Value) Value {
+		return Tuple{e.strConcat(Str{S: "E("}, e.strConcat(a[1].(Str), Str{S: ")"})), Iface{}}
+	}
+	intercepts[mgr+"Decrypt"] = func(e *Engine, fr *frame, a []Value) Value {
+		s := a[1].(Str)
+		n := s.Len()
+		if n < 3 {
+			return Tuple{Str{}, e.mkError("decrypt: malformed ciphertext")}
+		}
+		head := e.strEq(e.strSlice(s, 0, 2), Str{S: "E("})
+		tail := e.strEq(e.strSlice(s, n-1, n), Str{S: ")"})
+		if !e.Branch(e.tb.And(head, tail)) {
+			return Tuple{Str{}, e.mkError("decrypt: malformed ciphertext")}
+		}
+		return Tuple{e.strSlice(s, 2, n-1), Iface{}}
+	}
+	intercepts[mgr+"ComputeResponse"] = func(e *Engine, fr *frame, a []Value) Value {
+		r := e.strConcat(Str{S: "H("}, a[1].(Str))
+		r = e.strConcat(r, Str{S: "|"})
+		r = e.strConcat(r, a[2].(Str))
+		return e.strConcat(r, Str{S: ")"})
+	}
+	intercepts["crypto/hmac.Equal"] = func(e *Engine, fr *frame, a []Value) Value {
+		x, y := a[0].(Slice), a[1].(Slice)
+		if x.Len != y.Len {
+			return e.tb.False
+		}
+		r := e.tb.True
+		for i := 0; i < x.Len; i++ {
+			r = e.tb.And(r, e.tb.Eq(x.B.E[x.Off+i].(*Term), y.B.E[y.Off+i].(*Term)))
+		}
+		return r
+	}
+	intercepts["encoding/hex.EncodeToString"] = func(e *Engine, fr *frame, a []Value) Value {
+		s := a[0].(Slice)
+		out := make([]*Term, 0, 2*s.Len)
+		hexd := func(n *Term) *Term {
+			lt := e.tb.Cmp(OpUlt, n, e.tb.Const(8, 10))
+			return e.tb.Ite(lt, e.tb.Bin(OpAdd, n, e.tb.Const(8, '0')), e.tb.Bin(OpAdd, n, e.tb.Const(8, 'a'-10)))
+		}
+		for i := 0; i < s.Len; i++ {
+			b := s.B.E[s.Off+i].(*Term)
+			out = append(out, hexd(e.tb.Bin(OpLShr, b, e.tb.Const(8, 4))), hexd(e.tb.Bin(OpBAnd, b, e.tb.Const(8, 15))))
+		}
+		return e.normStr(out, nil)
+	}
+}
